@@ -121,6 +121,9 @@ class LibMap:
             return "(*vf_map_%s_index(%s, %s))" % (tag, em.addr_of(a0), em.E(args[1]))
         if ct0.startswith("struct vf_pair_") and op == "=":
             return "%s = %s" % (em.paren(em.E(a0)), em.E(args[1]))
+        if self.is_ilist_iter(em, a0) and len(args) == 1 and op in ("*", "->"):
+            # iterator of an intrusive list = pointer into the array of element pointers
+            return "(**%s)" % em.paren(em.E(a0)) if op == "*" else "(*%s)" % em.paren(em.E(a0))
         if is_scalar(ct0) or ct0 == "vf_str":
             # smart pointers, iterators, atomics, string ids: builtin operator on the mapped value
             if op == "->":
@@ -207,6 +210,14 @@ class LibMap:
             pointee = ct
         if pointee.startswith("struct vf_seq_"):
             return self.seq_call(em, n, pointee[len("struct vf_seq_"):], self.obj_ptr(em, base, arrow), name, args)
+        if pointee.startswith("struct vf_ilist_"):
+            return self.ilist_call(em, n, pointee[len("struct vf_ilist_"):], self.obj_ptr(em, base, arrow), name, args)
+        if pointee == "struct vf_ihook":
+            o = em.E(base)
+            o = ("(*%s)" % o) if arrow else em.paren(o)
+            if name == "is_linked":
+                return "%s.linked" % o
+            return None
         if pointee.startswith("struct vf_opt_"):
             o = em.E(base)
             o = ("(*%s)" % o) if arrow else em.paren(o)
@@ -335,6 +346,30 @@ class LibMap:
             return "%sswap(%s, %s)" % (f, p, em.addr_of(args[0]))
         return None
 
+    def ilist_call(self, em, n, tag, p, name, args):
+        """boost::intrusive::list member functions on the vf_ilist model (elements are passed by reference)"""
+        f = "vf_ilist_%s_" % tag
+        if name == "size":
+            return "%s->n" % em.paren(p) if re.fullmatch(r"&?[\w.>-]+", p) else "%ssize(%s)" % (f, p)
+        if name in ("empty", "clear", "pop_front", "pop_back") and not args:
+            return "%s%s(%s)" % (f, name, p)
+        if name in ("begin", "cbegin", "end", "cend") and not args:
+            return "%s%s(%s)" % (f, name.lstrip("c"), p)
+        if name in ("front", "back") and not args:
+            return "(*%s%s(%s))" % (f, name, p)
+        if name in ("push_back", "push_front", "iterator_to") and len(args) == 1:
+            return "%s%s(%s, %s)" % (f, name, p, em.addr_of(args[0]))
+        if name == "erase" and len(args) == 1:
+            return "%serase(%s, %s)" % (f, p, em.E(args[0]))
+        return None
+
+    def is_ilist_iter(self, em, a):
+        try:
+            t = em.tm.resolve(strip_ref(em.ptype(a)))
+        except Unsupported:
+            return False
+        return t.kind == "named" and t.last == "list_iterator" and (t.name or "").startswith("boost::intrusive::")
+
     def map_call(self, em, n, tag, p, name, args):
         f = "vf_map_%s_" % tag
         if name in ("size", "empty", "clear"):
@@ -392,6 +427,36 @@ class LibMap:
                 if tag in em.tm.seq_insts or True:
                     em.tm.seq_insts.setdefault(tag, ct[:-1])
                     return "vf_seq_%s_%s_in(%s, %s, %s)" % (tag, name, em.E(args[0]), em.E(args[1]), em.E(args[2]))
+        if name in ("max", "min", "lowest", "epsilon", "infinity") and not args and fnt:
+            # static constants of std::numeric_limits<T> (clang prints no class for the callee: recognised by the
+            # zero-argument noexcept signature returning a builtin arithmetic type)
+            m = re.fullmatch(r"(int|long|unsigned int|unsigned long|double|float) \(\) noexcept", fnt)
+            table = {("int", "max"): "INT_MAX", ("int", "min"): "INT_MIN", ("int", "lowest"): "INT_MIN",
+                     ("long", "max"): "LONG_MAX", ("long", "min"): "LONG_MIN", ("long", "lowest"): "LONG_MIN",
+                     ("unsigned int", "max"): "UINT_MAX", ("unsigned int", "min"): "0U",
+                     ("unsigned long", "max"): "ULONG_MAX", ("unsigned long", "min"): "0UL",
+                     ("double", "max"): "DBL_MAX", ("double", "min"): "DBL_MIN", ("double", "lowest"): "(-DBL_MAX)",
+                     ("double", "epsilon"): "DBL_EPSILON", ("double", "infinity"): "((double)INFINITY)",
+                     ("float", "max"): "FLT_MAX", ("float", "min"): "FLT_MIN", ("float", "lowest"): "(-FLT_MAX)",
+                     ("float", "epsilon"): "FLT_EPSILON", ("float", "infinity"): "INFINITY"}
+            if m and (m.group(1), name) in table:
+                return table[(m.group(1), name)]
+        if name == "intrusive_erase" and len(args) == 2:
+            # simgrid::xbt::intrusive_erase(list, elem) is list.erase(list.iterator_to(elem)) (include/xbt/utility.hpp)
+            ct = self.mapped(em, args[0])
+            if ct and ct.startswith("struct vf_ilist_"):
+                return "%s_erase_elem(%s, %s)" % (ct[len("struct "):], em.addr_of(args[0]), em.addr_of(args[1]))
+        if name in ("next", "prev") and len(args) in (1, 2):
+            ct = self.mapped(em, args[0])
+            if ct and ct.endswith("*"):
+                step = "1" if len(args) == 1 or args[1].get("kind") == "CXXDefaultArgExpr" else em.paren(em.E(args[1]))
+                return "(%s %s %s)" % (em.paren(em.E(args[0])), "+" if name == "next" else "-", step)
+        if name in ("begin", "end", "cbegin", "cend", "size", "empty") and len(args) == 1:
+            ct = self.mapped(em, args[0])
+            if ct and ct.startswith("struct vf_ilist_"):
+                return self.ilist_call(em, n, ct[len("struct vf_ilist_"):], em.addr_of(args[0]), name, [])
+            if ct and ct.startswith("struct vf_seq_"):
+                return self.seq_call(em, n, ct[len("struct vf_seq_"):], em.addr_of(args[0]), name, [])
         if name in ("get_pointer",) and len(args) == 1:
             return em.E(args[0])
         if name in MATH1:
@@ -592,6 +657,29 @@ class LibMap:
                 name = em.decl_local(loopvar, False)
                 lct = em.tm.c(lv_t)
                 out.append("%s  %s %s = %s;" % (i2, lct, name, elem))
+            out += em.body(body, i2 + "  ")
+            out.append(i2 + "}")
+            out.append(ind + "}")
+            return out
+        if rct.startswith("struct vf_ilist_"):
+            # boost::intrusive::list: index loop over the array of element pointers (the body must not relink
+            # elements of the list it iterates over, as in C++)
+            tag = rct[len("struct vf_ilist_"):]
+            ect = em.tm.ilist_insts[tag][0]
+            rname = "__r%d" % k
+            iname = "__i%d" % k
+            pre, e = em.with_pre(lambda: em.addr_of(rinit))
+            out += [i2 + p for p in pre]
+            out.append("%s%s* %s = %s;" % (i2, rct, rname, e))
+            out += em.exc_check(rinit, i2)
+            m = em.loop_macro()
+            out.append("%sfor (size_t %s = 0; %s < %s->n; %s++)" % (i2, iname, iname, rname, iname))
+            out.append(i2 + "  " + m)
+            out.append(i2 + "{")
+            if lv_t.kind not in ("ref", "rref"):
+                raise Unsupported("range-for by value over an intrusive list")
+            name = em.decl_local(loopvar, True)
+            out.append("%s  %s* %s = %s->d[%s];" % (i2, ect, name, rname, iname))
             out += em.body(body, i2 + "  ")
             out.append(i2 + "}")
             out.append(ind + "}")
